@@ -775,11 +775,14 @@ func (pc ParseContext) compileCond(ctx context.Context, c ast.Children) (rel.Exp
 }
 
 func (pc ParseContext) compileCondWithControlVar(ctx context.Context, c ast.Children) (rel.Expr, error) {
-	conditions, err := pc.compileCondElements(ctx, c.(ast.One).Node.(ast.Branch)["condition"].(ast.Many)...)
+	// A cond without arms has no "condition" or "value" children at all.
+	conditionNodes, _ := c.(ast.One).Node.(ast.Branch)["condition"].(ast.Many)
+	valueNodes, _ := c.(ast.One).Node.(ast.Branch)["value"].(ast.Many)
+	conditions, err := pc.compileCondElements(ctx, conditionNodes...)
 	if err != nil {
 		return nil, err
 	}
-	values, err := pc.compileCondExprs(ctx, c.(ast.One).Node.(ast.Branch)["value"].(ast.Many)...)
+	values, err := pc.compileCondExprs(ctx, valueNodes...)
 	if err != nil {
 		return nil, err
 	}
@@ -1067,7 +1070,8 @@ func handleAccessScanners(base, access parser.Scanner) parser.Scanner {
 
 func (pc ParseContext) compileRelation(ctx context.Context, b ast.Branch, c ast.Children) (rel.Expr, error) {
 	names := parseNames(c.(ast.One).Node.(ast.Branch)["names"].(ast.One).Node.(ast.Branch))
-	tuples := c.(ast.One).Node.(ast.Branch)["tuple"].(ast.Many)
+	// A heading without rows has no "tuple" children at all.
+	tuples, _ := c.(ast.One).Node.(ast.Branch)["tuple"].(ast.Many)
 	tupleExprs := make([][]rel.Expr, 0, len(tuples))
 	for _, tuple := range tuples {
 		exprs, err := pc.compileExprs(ctx, tuple.(ast.Branch)["v"].(ast.Many)...)
